@@ -879,8 +879,12 @@ def m0_js():
     m.add(StructDef("JOpt", [("a", Opt(P("u8"), "diplomat")), ("b", Opt(P("i64"), "diplomat")), ("c", Opt(EnumT("Je"), "diplomat")),
                              ("d", Opt(StructT("JInner"), "diplomat")), ("e", P("u8"))]))
     m.add(OpaqueDef("Js"))
+    m.add(StructDef("JRefs", [("o", OpaqueRef("Js")), ("n", P("u8")), ("p", OpaqueRef("Js", optional=True)), ("k", P("u16"))]))
     for sd in list(m.structs.values()):
-        m.method("Js", "rt_%s" % sd.name.lower(), None, [("s", StructT(sd.name))], StructT(sd.name))
+        if sd.borrowed:
+            m.method("Js", "rt_%s" % sd.name.lower(), None, [("s", StructT(sd.name, borrowed=True))], StructT(sd.name, borrowed=True), ret_from=PassThrough("s"))
+        else:
+            m.method("Js", "rt_%s" % sd.name.lower(), None, [("s", StructT(sd.name))], StructT(sd.name))
     m.method("Js", "new", None, [], OpaqueBox("Js"))
     return m
 
